@@ -36,12 +36,14 @@ static struct in_p5 G;
 static const polyseed_lang* const LANG_A = (const polyseed_lang*)&G.idx[0];   /* opaque language tokens */
 static const polyseed_lang* const LANG_B = (const polyseed_lang*)&G.idx[1];
 
-static int S_nfkd_calls, S_split_calls, S_pd_calls, S_pde_calls;
+static int S_nfkd_calls, S_split_calls, S_pd_calls, S_pde_calls, S_bad_wiring;
+static char S_nfkd_in_copy[NS];
 static const char* S_nfkd_str; static char* S_nfkd_norm; static char* S_split_str;
 static const char** S_split_words; static const char* const* S_pd_phrase; static const polyseed_lang* S_pde_lang;
 
 size_t __CPROVER_file_local_dependency_h_utf8_nfkd_lazy(const char* str, polyseed_str norm) {
     S_nfkd_calls++; S_nfkd_str = str; S_nfkd_norm = norm; DEP_TICK();
+    for (int i = 0; i < NS; ++i) S_nfkd_in_copy[i] = str[i];
     size_t n = 0;
     while (n < NS - 1 && G.norm[n] != '\0') { norm[n] = G.norm[n]; n++; }
     if (n == NS - 1) {
@@ -56,12 +58,16 @@ size_t __CPROVER_file_local_dependency_h_utf8_nfkd_lazy(const char* str, polysee
 
 int __CPROVER_file_local_polyseed_c_str_split(char* str, polyseed_phrase words) {
     S_split_calls++; S_split_str = str; S_split_words = words; DEP_TICK();
+    /* the tokeniser must be given the normalised copy: same bytes as the normaliser delivered */
+    for (int i = 0; i < NS - 1; ++i) { if (str[i] != G.norm[i]) S_bad_wiring++; if (G.norm[i] == '\0') break; }
     int c = G.count;
     for (int i = 0; i < 16 && i < c; ++i) words[i] = str;   /* some pointers into the buffer */
     return c;
 }
 
-static polyseed_status phrase_common(uint_fast16_t idx_out[16]) {
+static polyseed_status phrase_common(const polyseed_phrase phrase, uint_fast16_t idx_out[16]) {
+    /* word lookup must be given the 16 tokens the tokeniser produced */
+    for (int i = 0; i < 16; ++i) if (phrase[i] != S_split_str) S_bad_wiring++;
     if (G.status == POLYSEED_OK)
         for (int i = 0; i < 16; ++i) idx_out[i] = G.idx[i];
     return (polyseed_status)G.status;
@@ -71,13 +77,13 @@ polyseed_status polyseed_phrase_decode(const polyseed_phrase phrase,
     uint_fast16_t idx_out[POLYSEED_NUM_WORDS], const polyseed_lang** lang_out) {
     S_pd_calls++; S_pd_phrase = phrase; DEP_TICK();
     if (G.status == POLYSEED_OK && lang_out != NULL) *lang_out = LANG_A;
-    return phrase_common(idx_out);
+    return phrase_common(phrase, idx_out);
 }
 
 polyseed_status polyseed_phrase_decode_explicit(const polyseed_phrase phrase,
     const polyseed_lang* lang, uint_fast16_t idx_out[POLYSEED_NUM_WORDS]) {
     S_pde_calls++; S_pd_phrase = phrase; S_pde_lang = lang; DEP_TICK();
-    return phrase_common(idx_out);
+    return phrase_common(phrase, idx_out);
 }
 
 static int wipes_whole(size_t n) {
@@ -123,7 +129,7 @@ static void p5_common(bool explicit_lang) {
         G = cur;
         dep_install(&G.dep);
         dep_reset_logs();
-        S_nfkd_calls = S_split_calls = S_pd_calls = S_pde_calls = 0;
+        S_nfkd_calls = S_split_calls = S_pd_calls = S_pde_calls = S_bad_wiring = 0;
     }
 
     polyseed_data dummy; polyseed_data* out = &dummy;
@@ -149,12 +155,13 @@ static void p5_common(bool explicit_lang) {
     VASSERT(st == want, "P5 status precedence: word count, language, checksum, memory, unsupported");
 
     /* pipeline wiring */
-    VASSERT(S_nfkd_calls == 1 && S_nfkd_str == G.str, "P5 the caller's string is normalised once");
-    VASSERT(S_split_calls == 1 && S_split_str == S_nfkd_norm, "P5 the normalised copy (not the input) is tokenised");
+    VASSERT(S_nfkd_calls == 1, "P5 the phrase is normalised once");
+    for (int i = 0; i < NS; ++i) VASSERT(S_nfkd_in_copy[i] == str0[i] || (i > 0 && str0[i - 1] == '\0'), "P5 the caller's string is what gets normalised");
+    VASSERT(S_split_calls == 1 && S_split_str != G.str, "P5 a copy (not the caller's input) is tokenised");
+    VASSERT(S_bad_wiring == 0, "P5 the tokeniser receives the normalised text and word lookup receives its tokens");
     if (G.count == 16) {
         VASSERT((explicit_lang ? S_pde_calls : S_pd_calls) == 1 && (explicit_lang ? S_pd_calls : S_pde_calls) == 0,
             "P5 word lookup called once, in the requested mode");
-        VASSERT(S_pd_phrase == (const char* const*)S_split_words, "P5 word lookup receives the token array");
         if (explicit_lang) VASSERT(S_pde_lang == LANG_B, "P5 explicit decoding uses the caller's language");
     } else {
         VASSERT(S_pd_calls == 0 && S_pde_calls == 0, "P5 wrong word count reported before any word lookup");
